@@ -192,18 +192,6 @@ mod std_wakers {
                     // new slots are armed
                     let new_len = 3;
                     wv.resize(new_len);
-                    // growth must leave the existing slots as they were (C16: a sleeping member
-                    // is not re-armed by an insert); observed through the real API:
-                    // clear_ready returns the previous state, a set bit is restored
-                    let mut o = 0;
-                    while o < len {
-                        let r = wv.readiness().clear_ready(o);
-                        assert!(r == ready[o], "C16: growing the readiness set changed the state of an existing slot");
-                        if r {
-                            wv.readiness().set_ready(o);
-                        }
-                        o += 1;
-                    }
                     let mut j = len;
                     while j < new_len {
                         ready[j] = true;
